@@ -45,6 +45,7 @@ v_truthy = Function("v_truthy", Val, B)
 v_int = Function("v_int", I, Val)  # injection of python ints
 v_int_of = Function("v_int_of", Val, I)
 v_eq = Function("v_eq", Val, Val, B)  # Python ==  on opaque values (reflexive, symmetric; identity implies equality)
+v_same = Function("v_same", Val, Val, B)  # `a is b` for str/int values: identity implies equality, not conversely
 v_hash = Function("v_hash", Val, Val)  # hash(data) as a Val (an int)
 v_hook = Function("v_hook", Val, Ref, Val, Val)  # user calc_data_id(hook, tree, data)
 v_callable = Function("v_callable", Val, B)
@@ -61,6 +62,7 @@ def val_axioms():
     return [
         ForAll([i], And(v_int_of(v_int(i)) == i, v_is_int(v_int(i)), v_truthy(v_int(i)) == (i != 0), Not(v_is_str(v_int(i)))), patterns=[v_int(i)]),
         ForAll([a], v_eq(a, a), patterns=[v_eq(a, a)]),
+        ForAll([a, b], Implies(v_same(a, b), a == b), patterns=[v_same(a, b)]),
         ForAll([a, b], v_eq(a, b) == v_eq(b, a), patterns=[v_eq(a, b)]),
         # data ids are ints or strs: == on them is identity of value (no two distinct equal ids)
         ForAll([a, b], Implies(And(Or(v_is_int(a), v_is_str(a)), Or(v_is_int(b), v_is_str(b)), v_eq(a, b)), a == b), patterns=[v_eq(a, b)]),
